@@ -170,11 +170,19 @@ func (m *Module) WriteTo(w io.Writer) (n int64, err error) {
 		}
 		fw.Fprintln(f.LLString())
 	}
-	// Attribute group definitions.
-	if len(m.AttrGroupDefs) > 0 && fw.size > 0 {
+	// Attribute group definitions. An attribute group without attributes cannot
+	// be defined in LLVM IR assembly (e.g. the empty attribute group added by
+	// the parser for an ID used but not defined); a use of its ID denotes it.
+	var attrGroupDefs []*AttrGroupDef
+	for _, a := range m.AttrGroupDefs {
+		if len(a.FuncAttrs) > 0 {
+			attrGroupDefs = append(attrGroupDefs, a)
+		}
+	}
+	if len(attrGroupDefs) > 0 && fw.size > 0 {
 		fw.Fprint("\n")
 	}
-	for _, a := range m.AttrGroupDefs {
+	for _, a := range attrGroupDefs {
 		fw.Fprintln(a.LLString())
 	}
 	// Named metadata definitions; output in natural sorting order.
